@@ -563,7 +563,7 @@ type %(T)s struct {
 	%(f1)s string
 	%(f2)s int
 }
-""" % locals(), {'"%s"' % p.ipath(rel)})
+""" % locals())
     p.run_func("", "\treturn %(pkgname)s.%(enc)s(%(T)s{%(f1)s: \"localhost\", %(f2)s: 8000 + len(args)})" % locals(), {'"%s"' % p.ipath(rel)})
     p.features.append("json-via-dependency")
 
